@@ -614,9 +614,17 @@ func (vc *VC) evalModTarget(env *Env, e CExpr, src string) []modTarget {
 			key := vc.memKey(sl.Elem())
 			return []modTarget{{key: key, ref: "(sl.base " + x.S + ")", isMem: true, lo: "(sl.off " + x.S + ")", hi: "(+ (sl.off " + x.S + ") (sl.cap " + x.S + "))"}}
 		case "allmem":
-			// allmem(byte)
-			id := t.Args[0].(CIdent)
-			tt := env.lookupType(id.Name)
+			// allmem(byte), allmem(*Node)
+			name := ""
+			switch a := t.Args[0].(type) {
+			case CIdent:
+				name = a.Name
+			case CUn:
+				if id, ok := a.X.(CIdent); ok && a.Op == "*" {
+					name = "*" + id.Name
+				}
+			}
+			tt := env.lookupType(name)
 			if tt == nil {
 				vc.unsup("modifies %s: unknown type", src)
 			}
